@@ -52,7 +52,10 @@ def _fold(rnd, name, value):
 
 
 def text_part(rnd, cid, kind=None):
-    kind = kind or rnd.choice(["7bit", "7bit", "qp", "b64", "8bit", "dots", "long"])
+    kind = kind or rnd.choice(["7bit", "7bit", "qp", "b64", "8bit", "dots", "long", "blank"])
+    if kind == "blank":
+        # bodies made of line ends only: one empty line, two, a space line
+        return ["Content-Type: text/plain; charset=us-ascii"], rnd.choice([b"\r\n", b"\r\n\r\n", b" \r\n", b"\r\n\r\n\r\n"])
     if kind == "7bit":
         body = "".join(f"line {i} of {cid}\r\n" for i in range(rnd.randint(1, 5)))
         return ["Content-Type: text/plain; charset=us-ascii"], body.encode()
